@@ -21,7 +21,7 @@ impl<T> UnsafeCell<T> {
 impl<T: ?Sized> UnsafeCell<T> {
     #[inline(always)]
     pub fn get(&self) -> *mut T {
-        crate::track::shim_access(self as *const Self as *const u8 as usize);
+        crate::track::cell_access(self as *const Self as *const u8 as usize);
         self.0.get()
     }
     #[inline(always)]
